@@ -80,7 +80,7 @@ def run_family(f, num, seed, keep=None):
 def driver_config(f):
     c = f["consts"]
     return {"backend": f["backend"], "ignoreCC": c["IgnoreCC"], "forceDefault": c["ForceDefault"], "defaultAge": c["DefaultAge"],
-            "bodyLen": f["bodylen"], "emptyBody": f["bodylen"] == 0, "limitBytes": f.get("limit", 0), "shards": f.get("shards", 0), "retry416": c.get("Retry416", False), "watchdogMs": 1500}
+            "bodyLen": f["bodylen"], "emptyBody": f["bodylen"] == 0, "limitBytes": f.get("limit", 0), "shards": f.get("shards", 0), "retry416": c.get("Retry416", False), "watchdogMs": 4000}
 
 
 def replay_and_validate(f, hists, inp=None):
